@@ -11,7 +11,7 @@ use rand::{Rng, SeedableRng};
 use serde_json::{Value, json};
 
 use crate::j;
-use crate::util::{Args, Report, TraceOut, catch, read_lines};
+use crate::util::{Args, Report, TraceOut, catch, logging, read_lines};
 
 pub const ALL_TYPES: [SignType; 11] = [
     SignType::Max3000Front112x16,
@@ -114,7 +114,15 @@ pub fn bus_error(n: usize) -> Box<dyn Error + Send + Sync> {
         io::ErrorKind::WriteZero,
     ];
     let e = io::Error::new(KINDS[n % KINDS.len()], "scripted bus error");
-    if (n / KINDS.len()) % 2 == 0 { Box::new(e) } else { Box::new(flipdot_core::FrameError::from(e)) }
+    // the concrete type of the boxed error varies too: a bare io::Error, a FrameError, the controller's own error type
+    // (a bus may itself be built on a Sign), a plain text error
+    match (n / KINDS.len()) % 5 {
+        0 => Box::new(e),
+        1 => Box::new(flipdot_core::FrameError::from(e)),
+        2 => Box::new(SignError::UnexpectedResponse { expected: "x".into(), actual: "y".into() }),
+        3 => Box::new(SignError::Bus { source: Box::new(e) }),
+        _ => "a bus error that is just text".into(),
+    }
 }
 
 pub fn outcome<T>(r: &Result<Result<T, SignError>, String>, style: impl Fn(&T) -> Option<PageFlipStyle>) -> String {
@@ -132,7 +140,23 @@ pub fn outcome<T>(r: &Result<Result<T, SignError>, String>, style: impl Fn(&T) -
 }
 
 /// Runs one controller call on `sign`; returns the outcome string.
+thread_local! {
+    static CALLS: std::cell::Cell<usize> = const { std::cell::Cell::new(0) };
+}
+
 pub fn run_call(sign: &Sign, name: &str, pages: &[Page<'static>]) -> String {
+    // every other call runs with logging enabled (the arguments of the library's log macros are then evaluated)
+    let n = CALLS.with(|c| {
+        c.set(c.get() + 1);
+        c.get()
+    });
+    logging(n % 2 == 0);
+    let out = run_call_inner(sign, name, pages);
+    logging(false);
+    out
+}
+
+fn run_call_inner(sign: &Sign, name: &str, pages: &[Page<'static>]) -> String {
     match name {
         "configure" => outcome(&catch(|| sign.configure()), |_| None),
         "configure_if_needed" => outcome(&catch(|| sign.configure_if_needed()), |_| None),
@@ -418,10 +442,17 @@ pub fn record_transfers(a: &Args, out: &mut TraceOut, heavy: bool) -> Value {
         one(out, "send_pages", addrs[k % 4], ALL_TYPES[k % 11], vec![small.clone(), pg.clone()], failures, 0);
         one(out, "send_pages", addrs[(k + 1) % 4], ALL_TYPES[(k + 3) % 11], vec![pg, small], 0, 0);
     }
-    // long lists: more than 256 pages; a running chunk total beyond 4096 spread over several pages
-    if heavy {
+    // long lists: more than 256 pages (cheap: one chunk each)
+    {
         let many: Vec<Page<'static>> = (0..300).map(|i| { let mut b = vec![0xFFu8; 16]; b[0] = i as u8; b[5] = (i >> 8) as u8; page_of(&b) }).collect();
         one(out, "send_pages", 3, ALL_TYPES[0], many, 1, 0);
+    }
+    // a running chunk total beyond 4096 spread over several pages; retries during which the running total passes 2^16
+    if heavy {
+        let six: Vec<Page<'static>> = (0..6).map(|i| Page::new(PageId(i as u8), 65532, 1)).collect();
+        one(out, "send_pages", 0x0101, ALL_TYPES[5], six, 2, 0);
+        let nine: Vec<Page<'static>> = (0..9).map(|i| Page::new(PageId(i as u8), 65532, 1)).collect();
+        one(out, "send_pages", 0x0102, ALL_TYPES[6], nine, 1, 0);
         let big = Page::new(PageId(1), 65532, 1);
         let two = Page::new(PageId(2), 28, 8);
         let three = Page::new(PageId(3), 44, 8);
